@@ -305,7 +305,7 @@ func gen(r *hx.Rng, n int, tier string) []string {
 	}
 	// keyset level (aead.New over several keys, prefix map + RAW fallback): ciphertexts of
 	// every key of the keyset, mutated prefixes, ciphertexts of disabled keys
-	nks := n / 40
+	nks := n / 100
 	for i := 0; i < nks; i++ {
 		ks := c01.RandKeyset(r)
 		for j, k := range ks.Keys {
@@ -319,6 +319,17 @@ func gen(r *hx.Rng, n int, tier string) []string {
 			out = append(out, line(ks, "valid", c0, ad, pt))
 			for _, m := range mutations(r, k, c0, ad, false, 2) {
 				out = append(out, line(ks, m.kind, m.c, m.ad, nil))
+			}
+			// a RAW key's ciphertext that happens to start with the prefix of another key of
+			// the keyset (the IV is chosen so): the RAW fallback must still decrypt it
+			if len(k.Prefix()) == 0 && k.Scheme != "env" {
+				for _, o := range ks.Keys {
+					if len(o.Prefix()) == 5 {
+						iv := append(clone(o.Prefix()), r.Bytes(k.IVLen()-5)...)
+						out = append(out, line(ks, "valid", validCiphertext(k, iv, pt, ad), ad, pt))
+						break
+					}
+				}
 			}
 			// the body of one key behind the prefix of another
 			o := ks.Keys[r.Intn(len(ks.Keys))]
